@@ -299,6 +299,7 @@ CLASS_METHODS = [
     ("simulator/network/protocols/ntp.py", "NTPPacket", ["generate_reply"]),
     (SW, "IOSoftware", ["add_connection", "terminate_connection", "send", "receive"]),
     (HOST, "HostNode", ["receive_frame"]),
+    ("simulator/network/hardware/nodes/network/router.py", "Router", ["check_send_frame_to_session_manager"]),
 ]
 
 
